@@ -552,6 +552,12 @@ def math_reqs(tier, seed, unit, nunits, ops, tag):
             for x in (0, 2 * one, G.clip(s, n, -2 * one), 3 * one, hi, lo, 10 * one):
                 for nn in big_n:
                     out.append(treq(op, S, x, D, nn))
+            if n == 128 and S == D:
+                # squares at the limb-carry boundary of the 128-bit product (powi is repeated checked_mul): a ~2^-63 event for random operands
+                for _ in range(scale(tier, 60, 600)):
+                    x = G.limb_carry_square(rng, s, n)
+                    for nn in (2, 3, -2):
+                        out.append(treq(op, S, x, D, nn))
         else:
             vals = {0, 1, -1, hi, lo, hi - 1, lo + 1, one, -one}
             lim = 100 if op == 't_tan' else 200
